@@ -63,8 +63,8 @@ class Fixture:
         if name == "graph_file_input": return self.files[fmt][compression]
         if name == "graph_list_of_files_input": return [] if variant == "falsy" else [self.files[fmt][compression]]
         if name == "raw_graph": return "" if variant == "falsy" else self.text[fmt]
-        if name == "url_graph_input": return "http://localhost:9/g.nt"
-        if name == "list_of_url_input": return [] if variant == "falsy" else ["http://localhost:9/g.nt"]
+        if name == "url_graph_input": return "file://" + self.files[fmt][None]          # a URL that works offline
+        if name == "list_of_url_input": return [] if variant == "falsy" else ["file://" + self.files[fmt][None]]
         if name == "url_endpoint": return "http://localhost:9/sparql"
         if name == "rdflib_graph":
             g = rdflib.Graph()
@@ -134,6 +134,22 @@ def _shape_map_graph_root(cfg, obs, src):
     if kind == "graph_file_input" and cfg["compression_mode"] is not None: return "compressed-file"
     if cfg["input_format"] in ("tsv_spo", "turtle_iter") and kind in ("graph_file_input", "raw_graph"): return "format:" + cfg["input_format"]
     return "other:%s:%s:%s:%s" % (obs[1], src, cfg["input_format"], cfg["compression_mode"])
+
+def observe_deferred(cfg, fx):
+    """valid URL-source configurations: the accepted Shaper must also WORK (nothing deferred to a later failure)"""
+    from shexer.shaper import Shaper
+    kw = kwargs_of(cfg, fx)
+    old = signal.signal(signal.SIGALRM, _alarm); signal.alarm(20)
+    try:
+        with warnings.catch_warnings():
+            warnings.simplefilter("ignore")
+            Shaper(**kw).shex_graph(string_output=True)
+        return None
+    except _Timeout: return ("timeout", "timeout", "")
+    except BaseException as e:
+        return (type(e).__name__, innermost(e), str(e)[:160])
+    finally:
+        signal.alarm(0); signal.signal(signal.SIGALRM, old)
 
 def judge(cfg, obs):
     rule = reference(cfg)
@@ -254,6 +270,13 @@ def run(pid, tier="quick", seed=0):
             seen.add(k); n += 1
             obs = observe(cfg, fx)
             f = judge(cfg, obs)
+            if f is None and obs[0] == "accepted" and len(cfg["sources"]) == 1 and list(cfg["sources"].items())[0] in (("url_graph_input", "ok"), ("list_of_url_input", "ok")) \
+                    and cfg["compression_mode"] is None and list(cfg["targets"]) == ["target_classes"] and cfg["targets"]["target_classes"] == "ok":
+                d = observe_deferred(cfg, fx)
+                if d is not None:
+                    k2 = "C20:deferred-failure:%s:%s:%s:%s" % (d[0], d[1], list(cfg["sources"])[0], cfg["input_format"])
+                    findings.setdefault(k2, {"key": k2, "what": "the constructor accepts the configuration but shex_graph then fails with %s: %s" % (d[0], d[2]),
+                                             "input": {"kind": "deferred", "config": cfg}})
             if f is None:
                 counts["accepted-valid" if obs[0] == "accepted" else "rejected-invalid"] += 1
                 if len(samples) < 4 and n % 997 == 1: samples.append({"config": cfg, "observed": list(obs)[:2], "reference": reference(cfg) or "valid"})
@@ -278,6 +301,9 @@ def replay(doc):
     fx = Fixture()
     try:
         inp = doc["input"]
+        if inp["kind"] == "deferred":
+            d = observe_deferred(inp["config"], fx)
+            return (True, "not reproduced on this tree") if d is None else (False, "reproduced: shex_graph fails with %s in %s: %s" % d)
         if inp["kind"] == "constructor":
             obs = observe(inp["config"], fx); f = judge(inp["config"], obs)
         else:
